@@ -38,6 +38,7 @@ type AuthOp struct {
 	Check  Check
 	Policy Policy
 	Tok    int
+	Sub    []AuthOp // "load": content of the scratch authorizer whose snapshot is loaded
 }
 
 func (o AuthOp) Sx() string {
@@ -54,6 +55,15 @@ func (o AuthOp) Sx() string {
 		return "(query " + o.Rule.Sx() + ")"
 	case "saveload":
 		return fmt.Sprintf("(saveload %d)", o.Tok)
+	case "load":
+		parts := make([]string, len(o.Sub))
+		for i, s := range o.Sub {
+			parts[i] = s.Sx()
+		}
+		if len(parts) == 0 {
+			return "(load)"
+		}
+		return "(load " + strings.Join(parts, " ") + ")"
 	}
 	return "(" + o.K + ")"
 }
@@ -120,10 +130,24 @@ func decAuthCase(cs *Sx) (AuthCase, error) {
 		a.Tokens = append(a.Tokens, blocks)
 	}
 	ops, _ := cs.field("ops")
-	for _, o := range ops {
+	var decOp func(o *Sx) (AuthOp, error)
+	decOp = func(o *Sx) (AuthOp, error) {
 		op := AuthOp{K: o.tag()}
 		var err error
 		switch op.K {
+		case "load":
+			for _, sub := range o.List[1:] {
+				so, e := decOp(sub)
+				if e != nil {
+					return op, e
+				}
+				switch so.K {
+				case "addfact", "addrule", "addcheck", "addpolicy":
+				default:
+					return op, fmt.Errorf("bad content op %s", so.K)
+				}
+				op.Sub = append(op.Sub, so)
+			}
 		case "addfact":
 			op.Fact, err = decPred(o.List[1])
 		case "addrule", "query":
@@ -138,6 +162,10 @@ func decAuthCase(cs *Sx) (AuthCase, error) {
 		default:
 			err = fmt.Errorf("bad op %s", o)
 		}
+		return op, err
+	}
+	for _, o := range ops {
+		op, err := decOp(o)
 		if err != nil {
 			return a, err
 		}
@@ -321,6 +349,33 @@ func goAuthSeq(a AuthCase) (res string) {
 			}
 		case "reset":
 			az.Reset()
+		case "load":
+			scratch, err := newAuthorizer(toks[0], a)
+			if err != nil {
+				return "authorizer-error " + err.Error()
+			}
+			for _, so := range op.Sub {
+				switch so.K {
+				case "addfact":
+					scratch.AddFact(biscuit.Fact{Predicate: so.Fact.ToBiscuit()})
+				case "addrule":
+					scratch.AddRule(so.Rule.ToBiscuit())
+				case "addcheck":
+					scratch.AddCheck(so.Check.ToBiscuit())
+				case "addpolicy":
+					scratch.AddPolicy(so.Policy.ToBiscuit())
+				}
+			}
+			data, err := scratch.SerializePolicies()
+			if err != nil {
+				outs = append(outs, "refused")
+				continue
+			}
+			if err := az.LoadPolicies(data); err != nil {
+				outs = append(outs, "load-error")
+				continue
+			}
+			outs = append(outs, "saved")
 		case "saveload":
 			data, err := az.SerializePolicies()
 			if err != nil {
